@@ -415,7 +415,7 @@ pub fn run(ctx: &mut Ctx) {
     let mut src = Sources::standard(n);
     src.three_man = n / 20;
     stream::run(ctx, &src, &mut check_pos);
-    let starts = crate::gen::fixed_positions();
+    let starts: Vec<MPos> = if ctx.light() { crate::gen::fixed_positions_slice(ctx.shard * 3, 3).into_iter().map(|x| x.1).collect() } else { crate::gen::fixed_positions() };
     let games = ctx.budget(40_000, 500_000);
     for i in 0..games {
         let mut s = if i % 3 == 0 { starts[0].clone() } else { ctx.rng.pick(&starts).clone() };
